@@ -258,8 +258,8 @@ def run(chk):
     chk.function(NB, "fill_diversity_matrix", "P")
     only = getattr(chk, "only", None)
     if not only or "proof" in only:
-        chk.guard(run_formulas)
-        chk.guard(run_fill)
+        chk.guard(run_formulas, fallback=[_replay_formula('_hamming'), _replay_formula('_jc69_from_matrix')])
+        chk.guard(run_fill, fallback=[_replay_fill])
         chk.discharge()
     chk.assume("float64 treated as the reals; log uninterpreted; numpy sum/diag on the fixed 4x4 matrix unrolled exactly")
     chk.assume("@njit kernel verified as its undecorated Python body (numba nopython == CPython on these values)")
